@@ -6,6 +6,7 @@ import numpy as np
 import common as C
 
 PID = "C11"
+DRIVER = [("C11", "TfPwaV.Gen.KinF", "KinF.handle"), ("C11d", "TfPwaV.Gen.DalitzF", "DalitzF.handle")]
 LEAN_TARGETS = ["TfPwaV.Props.C11", "TfPwaV.Props.C11b", "TfPwaV.Gen.KinF", "TfPwaV.Gen.DalitzF"]
 PROP_MODULES = ["TfPwaV.Props.C11", "TfPwaV.Props.C11b"]
 ALL_MODULES = ["TfPwaV.Proofs.Kin", "TfPwaV.Proofs.Dalitz", "TfPwaV.Props.C11", "TfPwaV.Props.C11b", "TfPwaV.Proofs.ScalarR"]
